@@ -38,6 +38,13 @@ Example C07_former_D24_witness_holds :
   agree c = true /\ dom_of (verdict07 c) = true /\ holds_of (verdict07 c) = true
   /\ o_rets c = [Some 0; Some 1].
 Proof. vm_compute. repeat split; reflexivity. Qed.
+(* ... and the `global.get g` offset of an active element segment follows its global (the second imported global is
+   global 0 after the first one is deleted) *)
+Example C07_element_offset_is_reindexed :
+  let c := self_r [(1, 1); (1, 2)] [99] [] [] [Delete SG 0] [mkSite KElemOff SG 1 ONone] in
+  agree c = true /\ dom_of (verdict07 c) = true /\ holds_of (verdict07 c) = true
+  /\ option_map e_sites (o_enc c) = Some [(0, 0)].
+Proof. vm_compute. repeat split; reflexivity. Qed.
 Example C07_nonvacuous :
   let c := self_r [(1, 1)] [99] [5; 6] [] [AddImport SG 21; Delete SG 1; AddLocal SG 31]
              [mkSite KCode SG 0 (OFunc 0); mkSite KCode SG 2 (OFunc 0); mkSite KCode SG 3 (OFunc 0); mkSite KCode SG 4 (OFunc 0);
